@@ -596,6 +596,15 @@ impl Editor {
                     header: None,
                 });
                 a.classes.push("add_file");
+                if p.file_graph_cyclic() {
+                    // (a generic argument can add an edge from an old file to an older one)
+                    for it in p.files.last().unwrap().items.clone() {
+                        if let ItemKind::Module(m) = &mut p.items[it].kind {
+                            m.uses.clear();
+                        }
+                    }
+                    a.classes.push("edit_reduced_file_cycle");
+                }
                 let fi = p.files.len() - 1;
                 self.flush(p, ws, Some(&[fi]), &mut a);
             }
